@@ -167,7 +167,7 @@ pub fn twin_cases(data: &[u8]) -> Option<TwinCases> {
     cfg17.channels = cfg17.channels.min(2);
     Some(TwinCases {
         c10: crate::props::c10::Case { cfg: cfg.clone(), seed, prefix, failed_call, suffix },
-        c11: crate::props::c11::Case { cfg: cfg.clone(), seed, mask, ops: ops.clone(), via_vec: via_vec && flush % 2 == 1 },
+        c11: crate::props::c11::Case { cfg: cfg.clone(), seed, mask, ops: ops.clone(), via_vec: via_vec && flush % 2 == 1, unmask_after_reset: flush >= 2 },
         c16: crate::props::c16::Case { cfg: cfg.clone(), seed, ops: ops.clone(), via_vec, flush },
         c17: crate::props::c17::Case { cfg: cfg17, seed, tones: vec![crate::signal::Tone { f: tone_f, a: 0.8, ph: 0.5 }], ops },
     })
